@@ -11,6 +11,7 @@ import (
 	"io"
 
 	"perun.network/go-perun/channel"
+	"perun.network/go-perun/client"
 	"perun.network/go-perun/wallet"
 )
 
@@ -98,5 +99,14 @@ func verifPBParams(x *channel.Params) (y *channel.Params, fromErr, toErr error) 
 		return nil, err, nil
 	}
 	y, toErr = ToParams(p)
+	return y, nil, toErr
+}
+
+func verifPBChannelUpdate(x *client.ChannelUpdateMsg) (y client.ChannelUpdateMsg, fromErr, toErr error) {
+	p, err := FromChannelUpdate(x)
+	if err != nil {
+		return y, err, nil
+	}
+	y, toErr = ToChannelUpdate(p)
 	return y, nil, toErr
 }
